@@ -24,11 +24,11 @@ Theorem C02_flat_triangle_pinned_refuted :
   exists (ray : Ray R) (v0 v1 v2 p : V) (u v : R), intersect_triangle_pinned ray v0 v1 v2 = Some (p, u, v) /\ 1 < u + v.
 Proof. exact intersect_triangle_pinned_unsound. Qed.
 
-(** ** plane: distance t >= 0 (the code rejects [t < 0] only: the boundary t = 0 -- origin on the plane -- is reported,
+(** ** plane: distance t > 0 (since fix fb7e7b9 the code rejects [t <= 0]; on the pinned tree the boundary t = 0 -- origin on the plane -- was reported,
     whereas the property text says "positive distance"), and the point is on the plane n.x = D *)
 Theorem C02_flat_plane_hit_is_true : forall (pl : Plane R) (ray : Ray R) (t : R),
   plane_intersect pl ray = Some t ->
-  0 <= t /\ vdot (pl_normal pl) (ray_project ray t) = pl_d pl /\ neps <= Rabs (plane_den pl ray) /\ t = plane_t pl ray.
+  0 < t /\ vdot (pl_normal pl) (ray_project ray t) = pl_d pl /\ neps <= Rabs (plane_den pl ray) /\ t = plane_t pl ray.
 Proof. exact plane_intersect_sound. Qed.
 (** Plane3D::new: unit normal; n.x = D is the plane through [point] perpendicular to [normal] *)
 Theorem C02_flat_plane_new : forall point normal : V, vlen2 normal <> 0 ->
@@ -36,11 +36,11 @@ Theorem C02_flat_plane_new : forall point normal : V, vlen2 normal <> 0 ->
   vlen2 (pl_normal pl) = 1 /\ forall x : V, vdot (pl_normal pl) x = pl_d pl <-> vdot normal (vsub x point) = 0.
 Proof. exact plane_new_spec. Qed.
 
-(** ** disk / annulus / sector, local frame: on the ray at t >= 0, in the disk's plane, r_in^2 <= |p-c|^2 <= r^2, and
+(** ** disk / annulus / sector, local frame: on the ray at t > 0, in the disk's plane, r_in^2 <= |p-c|^2 <= r^2, and
     p = c + rho (cos phi . phi_zero + sin phi . (n x phi_zero)) with r_in <= rho <= r and 0 <= phi <= phi_max, phi < 2 pi *)
 Theorem C02_flat_disk_hit_is_true : forall (d : Disk R) (ray : Ray R) (p : V) (phi : R), disk_wf d ->
   disk_basic_intersection d ray = Some (p, phi) ->
-  (exists t, 0 <= t /\ p = ray_project ray t) /\
+  (exists t, 0 < t /\ p = ray_project ray t) /\
   vdot (dk_normal d) (vsub p (dk_centre d)) = 0 /\
   dk_inner d * dk_inner d <= vlen2 (vsub p (dk_centre d)) <= dk_radius d * dk_radius d /\
   exists rho, dk_inner d <= rho <= dk_radius d /\ 0 <= phi <= dk_phi_max d /\ phi < 2 * PI /\ p = disk_point d rho phi.
@@ -59,11 +59,11 @@ Proof. exact disk_new_detailed_wf. Qed.
     and on the world ray at a non-negative parameter (the local origin is the image of the world origin nudged forward) *)
 Theorem C02_flat_disk_simple_intersect : forall (d : Disk R) (ray : Ray R) (pw : V), disk_wf d -> disk_tr_ok d ->
   disk_simple_intersect d ray = Some pw ->
-  exists pl, pw = disk_to_world d pl /\ on_disk d pl /\ exists s, 0 <= s /\ pw = ray_project ray s.
+  exists pl, pw = disk_to_world d pl /\ on_disk d pl /\ exists s, 0 < s /\ pw = ray_project ray s.
 Proof. exact disk_simple_intersect_sound. Qed.
 Theorem C02_flat_disk_intersect_transformed : forall (d : Disk R) (t : T) (ray : Ray R) (i : Info R),
   disk_wf d -> dk_transform d = Some t -> Inv t -> disk_intersect d ray = Some i ->
-  exists pl, ip i = tr_pt t pl /\ on_disk d pl /\ exists s, 0 <= s /\ ip i = ray_project ray s.
+  exists pl, ip i = tr_pt t pl /\ on_disk d pl /\ exists s, 0 < s /\ ip i = ray_project ray s.
 Proof. exact disk_intersect_tr_sound. Qed.
 (** [on_disk] read geometrically *)
 Theorem C02_flat_on_disk_polar : forall (d : Disk R) (p : V), disk_wf d -> on_disk d p ->
